@@ -262,7 +262,8 @@ func closureTarget(v ssa.Value) *ssa.Function {
 	return nil
 }
 
-// resolveBound: for a bound-method wrapper returns the wrapped method too.
+// resolveBound: for a bound-method wrapper, or a function literal that does nothing but forward its parameters to one
+// function of the module (`func(pr) { h.rewrite(pr) }`), returns the wrapped function too.
 func resolveBound(f *ssa.Function) []*ssa.Function {
 	out := []*ssa.Function{f}
 	if f.Synthetic != "" {
@@ -273,8 +274,64 @@ func resolveBound(f *ssa.Function) []*ssa.Function {
 				}
 			}
 		})
+		return out
+	}
+	if g := forwardTarget(f); g != nil {
+		out = append(out, resolveBound(g)...)
 	}
 	return out
+}
+
+// forwardTarget: f's body is a single block that loads captured/parameter values, makes exactly one static call to a
+// module function passing f's own parameters in order as the trailing arguments, and returns that call's results.
+func forwardTarget(f *ssa.Function) *ssa.Function {
+	if f == nil || len(f.Blocks) != 1 {
+		return nil
+	}
+	var call *ssa.Call
+	for _, i := range f.Blocks[0].Instrs {
+		switch x := i.(type) {
+		case *ssa.Call:
+			if call != nil {
+				return nil
+			}
+			call = x
+		case *ssa.UnOp, *ssa.FieldAddr, *ssa.Field, *ssa.Extract, *ssa.Return, *ssa.DebugRef, *ssa.ChangeType, *ssa.MakeInterface:
+		default:
+			return nil
+		}
+	}
+	if call == nil {
+		return nil
+	}
+	g := staticCallee(&call.Call)
+	if g == nil || g.Blocks == nil || g.Pkg == nil || !strings.HasPrefix(g.Pkg.Pkg.Path(), modPath) {
+		return nil
+	}
+	args := call.Call.Args
+	np := len(f.Params)
+	if len(args) < np {
+		return nil
+	}
+	for k := 0; k < np; k++ {
+		if args[len(args)-np+k] != ssa.Value(f.Params[k]) {
+			return nil
+		}
+	}
+	ret, ok := f.Blocks[0].Instrs[len(f.Blocks[0].Instrs)-1].(*ssa.Return)
+	if !ok {
+		return nil
+	}
+	for k, rv := range ret.Results {
+		if len(ret.Results) == 1 {
+			if rv != ssa.Value(call) {
+				return nil
+			}
+		} else if ex, ok := rv.(*ssa.Extract); !ok || ex.Tuple != ssa.Value(call) || ex.Index != k {
+			return nil
+		}
+	}
+	return g
 }
 
 // R5: the handler forwards through the reverse proxy only (no second forwarding path that would skip Rewrite).
